@@ -41,7 +41,7 @@ INFO = {
 EXPECTED_PROBES = ("trace_at_normal", "trace_at_verbose", "trace_at_debug", "clamped_low", "clamped_high",
                    "listener_handled", "listener_failed", "keyboard_interrupt", "keyboard_interrupt_debug",
                    "raise_inside_indent", "raise_deep", "origin_simfile", "origin_simfile_fault", "origin_exec",
-                   "library_exception", "quiet_exception", "markup_message", "real_recursion_error")
+                   "library_exception", "quiet_exception", "markup_message", "real_recursion_error", "prior_failing_run", "callback_handler")
 
 RETURNS = [None, False, 0, 0.0, "", True, 1, -1, -300, 255, 256, 1000000, "3", "0", "007", 0.5, 3.7, 254.9, 2, 17]
 
@@ -96,6 +96,11 @@ def gen(S, tier):
         "target_hid": target["hid"], "verbosity": c.pick(["", "", "-v", "-vv", "-vvv"]), "quiet": c.chance(0.1),
         "ansi": c.chance(0.5), "script": _script(w, outcome), "listeners": listeners,
         "origin": f.weighted([("harness", 5), ("simfile", 2), ("simfile_fault", 2), ("exec", 2)]),
+        # how the handler is attached: an object with handle(), or a callable wrapped in CallbackHandler
+        "handler_kind": c.pick(["object", "object", "callback", "callback_var"]),
+        # failing runs of the same process *before* the run under test (another application object,
+        # another message): what their error reports leave behind must not matter
+        "prior": [srcgen.gen_exc_spec(f) for _ in range(f.weighted([(0, 6), (1, 3), (2, 1)]))],
     }
 
 
@@ -122,6 +127,10 @@ def sweep(sc, tier):
 
 
 def simplify(sc):
+    if sc.get("prior"):
+        yield dict(sc, prior=sc["prior"][:-1])
+    if sc.get("handler_kind", "object") != "object":
+        yield dict(sc, handler_kind="object")
     if sc["listeners"]:
         yield dict(sc, listeners=sc["listeners"][:-1])
         yield dict(sc, listeners=[])
@@ -230,7 +239,21 @@ def execute(sc):
             listeners.append((PRE_HANDLE, mk_listener(i, prio, behaviour, code), prio))
 
         scripts = {sc["target_hid"]: steps}
-        app = apptree.build_app(sc["app"], scripts, inv, listeners, raiser)
+        for j, pspec in enumerate(sc.get("prior", [])):
+            pinv = []
+            papp = apptree.build_app(sc["app"], {sc["target_hid"]: [["raise", pspec]]}, pinv)
+            plog = EventLog()
+            try:
+                pst = papp.run(ArgvArgs(["prog"] + list(sc["path"]) + list(sc["tail"])), SimInputStream(plog, []),
+                               SimOutputStream("pout", plog, ansi=sc["ansi"]), SimOutputStream("perr", plog, ansi=sc["ansi"]))
+                if type(pst) is not int or pst == 0:
+                    res.violate("status", "prior_run", "a failing earlier run returned %r" % (pst,))
+            except BaseException as e:
+                res.violate("escapes", "prior_run:%s" % type(e).__name__, "an earlier run raised %s: %s" % (type(e).__name__, str(e)[:100]))
+            res.probe("prior_failing_run")
+        app = apptree.build_app(sc["app"], scripts, inv, listeners, raiser, handler_kinds={sc["target_hid"]: sc.get("handler_kind", "object")})
+        if sc.get("handler_kind", "object") != "object":
+            res.probe("callback_handler")
         tokens = list(sc["path"]) + list(sc["tail"])
         if sc["verbosity"]:
             tokens.append(sc["verbosity"])
